@@ -9,7 +9,7 @@ use vbase::{ensure, fail};
 
 use crate::sx::{cmp_node, walk};
 
-pub const RULE: &str = "cases are well-formed JSON texts (generated with independent layout incl. duplicate keys, escapes, long strings, every alignment prefix 0..64; golden documents padded to every total length; the repository's benchmark corpus files). Each is parsed through the routes {from_slice/from_str whole input (in-place padded parser), struct field, Option<Value> behind whitespace, two elements of Vec<Value>, 2nd and 3rd document of Deserializer::deserialize and of into_stream (copying parser)} x {default, use_rawnumber(), utf8_lossy()}; every resulting Value is walked through the public read API and compared node by node with the reference parse (order and duplicates kept, decoded strings, numbers by the C07 rule, raw numbers byte-equal to the literal); routes must also agree with each other by == and to_string. Non-trivial = at least one container and at least three values; distinct by text.";
+pub const RULE: &str = "cases are well-formed JSON texts (generated with independent layout incl. duplicate keys, escapes, long strings, every alignment prefix 0..64; golden documents padded to every total length; the repository's benchmark corpus files). Each is parsed through the routes {from_slice/from_str whole input (in-place padded parser), struct field, Option<Value> behind whitespace, two elements of Vec<Value>, 2nd and 3rd document of Deserializer::deserialize and of into_stream (copying parser)} x {default, use_rawnumber(), utf8_lossy()}; every resulting Value is walked through the public read API and compared node by node with the reference parse (order and duplicates kept, decoded strings, numbers by the C07 rule, raw numbers byte-equal to the literal); routes must also agree with each other by == and to_string. Every Deserializer route parses from a private heap copy of the text that is overwritten and freed before the Value is walked (a Value has no lifetime and must own everything). Non-trivial = at least one container and at least three values; distinct by text.";
 pub const ASSUMPTIONS: &[&str] = &["refjson parser is correct (self-tested against serde_json on every run)", "Rust std str::parse::<f64>/<u64>/<i64> are exact"];
 
 #[derive(Deserialize)]
@@ -48,6 +48,16 @@ fn de_with<'a>(input: &'a [u8], mode: Mode) -> Deserializer<sonic_rs::Read<'a>> 
         Mode::Raw => d.use_rawnumber(),
         Mode::Lossy => d.utf8_lossy(),
     }
+}
+
+/// Parse from a private heap copy of `w`, then overwrite and free that copy before the result is
+/// looked at: a `Value` has no lifetime, so nothing in it may still refer to the caller's input.
+fn scrubbed<T>(w: &[u8], mode: Mode, f: impl for<'a> FnOnce(Deserializer<sonic_rs::Read<'a>>) -> T) -> T {
+    let mut buf = w.to_vec();
+    let r = f(de_with(&buf, mode));
+    buf.fill(b'7');
+    drop(buf);
+    r
 }
 
 pub fn oracle(t: &[u8], obs: &mut Obs) -> Result<(), Fail> {
@@ -91,11 +101,11 @@ pub fn oracle(t: &[u8], obs: &mut Obs) -> Result<(), Fail> {
             Mode::Lossy => "lossy",
         };
         // whole input through Deserializer (index 0: in-place)
-        let v: Value = de_with(t, mode).deserialize().map_err(|e| Fail::new("C03/whole/rejects-valid", format!("Deserializer({mname}) rejected {:?}: {e}", show_bytes(t, 300))))?;
+        let v: Value = scrubbed(t, mode, |mut d| d.deserialize()).map_err(|e| Fail::new("C03/whole/rejects-valid", format!("Deserializer({mname}) rejected {:?}: {e}", show_bytes(t, 300))))?;
         check_value("Deserializer::deserialize (first)", if raw { "whole-raw" } else { "whole" }, &node, t, &v, raw)?;
         // embedded in a struct (copying parser)
         let w = wrap(b"{\"v\": ", t, b"}");
-        let x: WrapV = de_with(&w, mode).deserialize().map_err(|e| Fail::new("C03/embedded/rejects-valid", format!("struct field ({mname}) rejected {:?}: {e}", show_bytes(t, 300))))?;
+        let x: WrapV = scrubbed(&w, mode, |mut d| d.deserialize()).map_err(|e| Fail::new("C03/embedded/rejects-valid", format!("struct field ({mname}) rejected {:?}: {e}", show_bytes(t, 300))))?;
         check_value("struct field", if raw { "embedded-raw" } else { "embedded" }, &node, t, &x.v, raw)?;
         if mode != Mode::Raw {
             ensure!(x.v == v0, "C03/embedded/routes-disagree", "embedded value != whole-input value on {:?}", show_bytes(t, 300));
@@ -104,7 +114,7 @@ pub fn oracle(t: &[u8], obs: &mut Obs) -> Result<(), Fail> {
         }
         // Option<Value> behind whitespace
         let w = wrap(b" \n\t", t, b"");
-        let x: Option<Value> = de_with(&w, mode).deserialize().map_err(|e| Fail::new("C03/embedded/rejects-valid", format!("Option<Value> ({mname}) rejected {:?}: {e}", show_bytes(t, 300))))?;
+        let x: Option<Value> = scrubbed(&w, mode, |mut d| d.deserialize()).map_err(|e| Fail::new("C03/embedded/rejects-valid", format!("Option<Value> ({mname}) rejected {:?}: {e}", show_bytes(t, 300))))?;
         match (&node.kind, &x) {
             (Kind::Null, None) => {}
             (_, Some(v)) => check_value("Option<Value>", if raw { "embedded-raw" } else { "embedded" }, &node, t, v, raw)?,
@@ -114,7 +124,7 @@ pub fn oracle(t: &[u8], obs: &mut Obs) -> Result<(), Fail> {
         let mut w = wrap(b"[", t, b",");
         w.extend_from_slice(t);
         w.push(b']');
-        let x: Vec<Value> = de_with(&w, mode).deserialize().map_err(|e| Fail::new("C03/embedded/rejects-valid", format!("Vec<Value> ({mname}) rejected two copies of {:?}: {e}", show_bytes(t, 300))))?;
+        let x: Vec<Value> = scrubbed(&w, mode, |mut d| d.deserialize()).map_err(|e| Fail::new("C03/embedded/rejects-valid", format!("Vec<Value> ({mname}) rejected two copies of {:?}: {e}", show_bytes(t, 300))))?;
         ensure!(x.len() == 2, "C03/embedded/structure", "Vec<Value> has {} elements", x.len());
         for v in &x {
             check_value("Vec<Value> element", if raw { "embedded-raw" } else { "embedded" }, &node, t, v, raw)?;
@@ -122,19 +132,22 @@ pub fn oracle(t: &[u8], obs: &mut Obs) -> Result<(), Fail> {
         // stream: 0 <t> <t>
         let mut w = wrap(b"0 ", t, b" ");
         w.extend_from_slice(t);
-        let mut de = de_with(&w, mode);
-        let first: Value = de.deserialize().map_err(|e| Fail::new("C03/stream/rejects-valid", format!("{e}")))?;
+        let docs: Vec<sonic_rs::Result<Value>> = scrubbed(&w, mode, |mut de| (0..3).map(|_| de.deserialize::<Value>()).collect());
+        let mut docs = docs.into_iter();
+        let first: Value = docs.next().unwrap().map_err(|e| Fail::new("C03/stream/rejects-valid", format!("{e}")))?;
         ensure!(walk(&first, false) == refjson::M::U64(0), "C03/stream/first", "first stream document is not 0");
-        for k in 0..2 {
-            let v: Value = de.deserialize().map_err(|e| Fail::new("C03/stream/rejects-valid", format!("stream document {} ({mname}) of {:?} rejected: {e}", k + 2, show_bytes(&w, 300))))?;
+        for (k, r) in docs.enumerate() {
+            let v: Value = r.map_err(|e| Fail::new("C03/stream/rejects-valid", format!("stream document {} ({mname}) of {:?} rejected: {e}", k + 2, show_bytes(&w, 300))))?;
             check_value("Deserializer::deserialize (later document)", if raw { "stream-raw" } else { "stream" }, &node, t, &v, raw)?;
         }
-        let mut st = de_with(&w, mode).into_stream::<Value>();
-        let _ = st.next();
-        for k in 0..2 {
-            match st.next() {
+        let items: Vec<Option<sonic_rs::Result<Value>>> = scrubbed(&w, mode, |de| {
+            let mut st = de.into_stream::<Value>();
+            (0..3).map(|_| st.next()).collect()
+        });
+        for (k, it) in items.into_iter().enumerate().skip(1) {
+            match it {
                 Some(Ok(v)) => check_value("StreamDeserializer", if raw { "stream-raw" } else { "stream" }, &node, t, &v, raw)?,
-                other => fail!("C03/stream/rejects-valid", "into_stream document {} of {:?}: {:?}", k + 2, show_bytes(&w, 300), other.map(|r| r.map(|_| ()))),
+                other => fail!("C03/stream/rejects-valid", "into_stream document {} of {:?}: {:?}", k + 1, show_bytes(&w, 300), other.map(|r| r.map(|_| ()))),
             }
         }
     }
